@@ -18,6 +18,9 @@ def srcs(ss):
 
 
 def run(ctx):
+    import time as _t
+    T = {}
+    t0 = _t.time()
     h = vlib.build_harness(ctx, 'c20')
     out = os.path.join(ctx.tmp, 'c20.jsonl')
     wd = os.path.join(ctx.tmp, 'ws')
@@ -26,6 +29,7 @@ def run(ctx):
     if rc != 0:
         raise RuntimeError('c20 harness failed: ' + log[-2000:])
     cases = [json.loads(l) for l in open(out)]
+    T['harness'] = round(_t.time() - t0, 1); t0 = _t.time()
     if ctx.replay:
         rp = json.load(open(ctx.replay))
         if 'case' in rp:
@@ -62,8 +66,15 @@ def run(ctx):
     m4 = re.search(r'R4 = (\d+)', cout)
     in_dom = int(m4.group(1)) if m4 else 0
 
-    lsp_n, lsp_bad = lsp_cases(ctx, lookups)
+    T['coq_main'] = round(_t.time() - t0, 1); t0 = _t.time()
+    overlay = run_overlay(ctx, lookups)
+    T['overlay'] = round(_t.time() - t0, 1); t0 = _t.time()
+    lsp_n, lsp_bad = lsp_cases(ctx, lookups, overlay)
+    fm_n = frommap_cases(ctx, [c for c in cases if c['kind'] == 'frommap'])
+    rl_n = reload_cases(ctx, overlay)
+    T['coq_lsp_frommap_reload'] = round(_t.time() - t0, 1); t0 = _t.time()
     cli_n = cli_cases(ctx)
+    T['cli'] = round(_t.time() - t0, 1)
 
     # ---- verdicts -------------------------------------------------------------------------
     for i in sorted(set(r2)):
@@ -105,16 +116,16 @@ def run(ctx):
     distinct = len({json.dumps([c['m'], c['file']], sort_keys=True) for c in lookups}) + \
         len({json.dumps([t['manifests'], t['project'], t['roots']], sort_keys=True) for t in trees})
     cov = proof_coverage(ctx, {
-        'evaluations': len(lookups) + nobs + lsp_n + cli_n,
+        'evaluations': len(lookups) + nobs + lsp_n + cli_n + fm_n + rl_n,
         'distinct_nontrivial': distinct,
         'rule': 'lookup cases: every pair of clean keys x versions x 18 directories (exhaustive) plus random maps of 1-3 keys '
                 'incl. unclean spellings; tree cases: temp workspaces with manifests/project/roots over dirs {"",a,ab,a/b,b}, 15 files '
                 'each addressed absolutely and relatively from 3-4 working directories. distinct = distinct (map,file) pairs + distinct trees',
         'lookup_cases': len(lookups), 'lookup_cases_in_spec_domain': in_dom, 'trees': len(trees), 'tree_observations': nobs,
-        'lsp_cases': lsp_n, 'lsp_mismatches': lsp_bad, 'cli_runs': cli_n,
+        'lsp_cases': lsp_n, 'lsp_mismatches': lsp_bad, 'cli_runs': cli_n, 'input_from_map_cases': fm_n, 'lsp_reload_steps': rl_n,
         'mismatch_model_lookup': len(r1), 'mismatch_spec_lookup': len(r2), 'bad_trees': len(r3),
         'samples': [lookups[len(lookups) // 2], {k: trees[0][k] for k in ('manifests', 'project', 'roots', 'vmap')}, trees[0]['obs'][:3]],
-        'exhaustive': False,
+        'exhaustive': False, 'phase_seconds': T,
     })
     return vlib.finish(ctx, 'proof', cov, [
         'stdlib path.Clean/Join/filepath.Dir are modelled (Base/PathModel.v), validated by this correspondence only',
@@ -146,9 +157,7 @@ def tree_details(ctx, tdef):
 
 # ---- language server: LanguageServer.regoVersionForURI (overlay test in internal/lsp) --------------
 
-def lsp_cases(ctx, lookups):
-    """the lookup cases with rooted file names, addressed as file:// URIs below the workspace root"""
-    import json as _j
+def lsp_inputs(ctx, lookups):
     sel = [c for c in lookups if c['file'].startswith('/') and '//' not in c['file']][:400 if ctx.quick() else 3000]
     roots = ['file:///R', 'file:///tmp/w s']
     cases = []
@@ -156,16 +165,32 @@ def lsp_cases(ctx, lookups):
         root = roots[i % 2]
         cases.append({'m': [{'K': kv['k'], 'V': kv['v']} for kv in c['m']], 'root': root,
                       'uri': root.replace(' ', '%20') + c['file']})
+    return cases
+
+
+def run_overlay(ctx, lookups):
+    """one `go test -overlay` run of package internal/lsp for both overlay tests (regoVersionForURI cases and
+    configuration reload histories)"""
+    import json as _j
     inp, outp = os.path.join(ctx.tmp, 'lsp_in.json'), os.path.join(ctx.tmp, 'lsp_out.json')
-    _j.dump(cases, open(inp, 'w'))
+    _j.dump(lsp_inputs(ctx, lookups), open(inp, 'w'))
+    hists = reload_histories(ctx)
+    rinp, routp = os.path.join(ctx.tmp, 'reload_in.json'), os.path.join(ctx.tmp, 'reload_out.json')
+    _j.dump([{'files': RELOAD_FILES, 'steps': [{'yaml': s['yaml']} for s in h]} for h in hists], open(rinp, 'w'))
     rc, log = vlib.go_test_overlay(ctx, './internal/lsp',
                                    {'internal/lsp/zz_verif_c20_test.go': os.path.join(vlib.VERIF, 'harness/overlay/c20_test.go')},
-                                   'TestVerifC20', env_extra={'VERIF_C20_IN': inp, 'VERIF_C20_OUT': outp})
-    if rc != 0 or not os.path.exists(outp):
-        if 'build failed' in log or 'cannot' in log:
-            raise vlib.HarnessBuildError(log)
-        raise RuntimeError('lsp overlay test failed: ' + log[-2000:])
-    got = _j.load(open(outp))
+                                   'TestVerifC20', timeout=1200,
+                                   env_extra={'VERIF_C20_IN': inp, 'VERIF_C20_OUT': outp,
+                                              'VERIF_C20_RELOAD_IN': rinp, 'VERIF_C20_RELOAD_OUT': routp})
+    if rc != 0 or not os.path.exists(outp) or not os.path.exists(routp):
+        raise vlib.HarnessBuildError('C20 overlay tests failed: ' + log[-2500:])
+    return {'lsp': _j.load(open(outp)), 'hists': hists, 'reload': _j.load(open(routp))}
+
+
+def lsp_cases(ctx, lookups, overlay):
+    """the lookup cases with rooted file names, addressed as file:// URIs below the workspace root"""
+    import json as _j
+    got = overlay['lsp']
     # model: strings.TrimPrefix(path(uri), path(root)) then the same lookup (any iteration order)
     v = ['From Regal Require Import Check.C20Check.', 'Open Scope N_scope.',
          'Definition cs : list lookup_case := ' + clist(
@@ -275,4 +300,95 @@ def cli_cases(ctx):
     elif 'use-rego-v1' not in before:
         vlib.violation(ctx, {'kind': 'cli-spelling', 'what': 'lint of a/both.rego in v0 root did not report use-rego-v1', 'observed': before},
                        signature={'kind': 'cli-spelling', 'key': 'a/both.rego|use-rego-v1'})
+    return n
+
+
+# ---- InputFromMap: several files in one call (fixer / language-server fix path) -------------------------
+
+def frommap_cases(ctx, fms):
+    import json as _j
+    if not fms:
+        return 0
+    v = ['From Regal Require Import Check.C20Check.', 'Open Scope N_scope.',
+         'Definition fms : list frommap_case := ' + clist(
+             'FromMapCase %s %s' % (vmap(c['m']), clist('(%s, %s)' % (cstr(f), clist(OUT[g] for g in c['got'][f])) for f in c['files']))
+             for c in fms) + '.',
+         'Definition F1 := Eval vm_compute in failing frommap_agrees 0 fms.',
+         'Definition F2 := Eval vm_compute in failing frommap_meets_spec 0 fms.', 'Print F1. Print F2.']
+    rc, out = vlib.coq_eval(ctx, 'Cases_C20_frommap', '\n'.join(v))
+    if rc != 0:
+        raise RuntimeError('frommap case evaluation failed: ' + out[-2000:])
+    f1, f2 = vlib.parse_nat_list(out, 'F1') or [], vlib.parse_nat_list(out, 'F2') or []
+    for i in (f2 or f1)[:1]:
+        c = fms[i]
+        bad = {f: g for f, g in c['got'].items() if len(g) > 1 or 'error' in g}
+        vlib.violation(ctx, {'kind': 'input-from-map', 'case': c,
+                             'what': 'rules.InputFromMap over files %s with versions %s parsed them as %s (10 repetitions; a file\'s version must '
+                                     'depend on its own directory only, detection v1 first when no directory is configured)' % (c['files'], c['m'], c['got']),
+                             'order_dependent_files': bad},
+                       signature={'kind': 'input-from-map', 'key': _j.dumps([c['m'], c['files']], sort_keys=True)})
+    return sum(len(c['files']) for c in fms)
+
+
+# ---- language server: histories of configuration (re)loads through the real config worker -----------------
+
+RELOAD_FILES = ['/p.rego', '/a/p.rego', '/a/b/p.rego', '/ab/p.rego', '/b/p.rego']
+
+
+def reload_histories(ctx):
+    rng = ctx.rng
+    dirs = ['a', 'ab', 'a/b', 'b']
+
+    def cfg():
+        proj = rng.choice([None, None, 0, 1])
+        roots = [{'dir': d, 'ver': rng.choice([None, 0, 1, 0, 1])} for d in dirs if rng.below(3) == 0]
+        y = 'project:\n'
+        if proj is not None:
+            y += '  rego-version: %d\n' % proj
+        if roots:
+            y += '  roots:\n'
+            for r in roots:
+                y += '    - path: %s\n' % r['dir']
+                if r['ver'] is not None:
+                    y += '      rego-version: %d\n' % r['ver']
+        if proj is None and not roots:
+            y = 'rules: {}\n'
+        return {'project': proj, 'roots': roots, 'yaml': y}
+    fixed = [[{'project': None, 'roots': [{'dir': 'a', 'ver': 0}, {'dir': 'b', 'ver': 1}], 'yaml': 'project:\n  roots:\n    - path: a\n      rego-version: 0\n    - path: b\n      rego-version: 1\n'},
+              {'project': None, 'roots': [{'dir': 'b', 'ver': 1}], 'yaml': 'project:\n  roots:\n    - path: b\n      rego-version: 1\n'},
+              {'project': 1, 'roots': [], 'yaml': 'project:\n  rego-version: 1\n'},
+              {'project': None, 'roots': [], 'yaml': 'rules: {}\n'}]]
+    hists = fixed + [[cfg() for _ in range(3 + rng.below(2))] for _ in range(2 if ctx.quick() else 25)]
+    return hists
+
+
+def reload_cases(ctx, overlay):
+    import json as _j
+    hists, got = overlay['hists'], overlay['reload']
+    vs = ['From Regal Require Import Check.C20Check.', 'Open Scope N_scope.']
+    for hi, (h, g) in enumerate(zip(hists, got)):
+        steps = clist('{| r_project := %s; r_roots := %s; r_obs := %s |}' % (
+            copt(None if s['project'] is None else 'V%d' % s['project']), srcs(s['roots']),
+            clist('(%s, %s)' % (cstr(f), VER.get(gs['got'].get(f, 'undef'), 'VUndef')) for f in RELOAD_FILES))
+            for s, gs in zip(h, g['steps']))
+        vs.append('Definition H%d := Eval vm_compute in reload_steps_bad [] 0 %s.' % (hi, steps))
+        vs.append('Print H%d.' % hi)
+    rc, out = vlib.coq_eval(ctx, 'Cases_C20_reload', '\n'.join(vs))
+    if rc != 0:
+        raise RuntimeError('reload case evaluation failed: ' + out[-2000:])
+    n = 0
+    for hi, (h, g) in enumerate(zip(hists, got)):
+        n += len(h)
+        if any('<timeout>' in st['got'] for st in g['steps']):
+            raise RuntimeError('config worker did not reload within the deadline')
+        bad = vlib.parse_nat_list(out, 'H%d' % hi) or []
+        if bad:
+            i = bad[0]
+            vlib.violation(ctx, {'kind': 'lsp-config-reload', 'history': [s['yaml'] for s in h[:i + 1]], 'step': i,
+                                 'observed': g['steps'][i]['got'],
+                                 'what': 'after loading the %d-th configuration of this history the language server answers %s for the files; '
+                                         'the current configuration alone (project=%s roots=%s) decides otherwise' % (
+                                             i + 1, g['steps'][i]['got'], h[i]['project'], h[i]['roots'])},
+                           signature={'kind': 'lsp-config-reload', 'key': _j.dumps([s['yaml'] for s in h[:i + 1]])})
+            break
     return n
